@@ -5,14 +5,14 @@ and which checks fire on it), then remove the scratch worktree and its build out
 import json, os, re, shutil, subprocess, sys
 pid = sys.argv[1]
 also = [a for a in sys.argv[2:] if not a.startswith('--')]
-rnd = 2 if '--round2' in sys.argv else 1
-base = ('/tmp/seed2/%s' if rnd == 2 else '/tmp/seed/%s') % pid
+rnd = 3 if '--round3' in sys.argv else (2 if '--round2' in sys.argv else 1)
+base = {1: '/tmp/seed/%s', 2: '/tmp/seed2/%s', 3: '/tmp/seed3/%s'}[rnd] % pid
 wt = base + '/wt'
 out = base + '/out'
-dst = '/verif/seeded/%s%s' % (pid, '-r2' if rnd == 2 else '')
+dst = '/verif/seeded/%s%s' % (pid, {1: '', 2: '-r2', 3: '-r3'}[rnd])
 confirm = None
-for f in ('/tmp/seed/confirm_batch1.txt', '/tmp/seed/confirm_batch2.txt', '/tmp/seed/confirm_batch3.txt', '/tmp/seed/confirm_batch4.txt', '/tmp/seed/confirm_batch5.txt', '/tmp/seed/confirm_batch6.txt', '/tmp/seed2/confirm.txt', base + '/confirm.txt'):
-    if rnd == 2 and not f.startswith('/tmp/seed2'):
+for f in ('/tmp/seed/confirm_batch1.txt', '/tmp/seed/confirm_batch2.txt', '/tmp/seed/confirm_batch3.txt', '/tmp/seed/confirm_batch4.txt', '/tmp/seed/confirm_batch5.txt', '/tmp/seed/confirm_batch6.txt', '/tmp/seed2/confirm.txt', '/tmp/seed3/confirm.txt', base + '/confirm.txt'):
+    if not f.startswith(os.path.dirname(base)) or (rnd == 1 and f.startswith('/tmp/seed2')) or (rnd == 1 and f.startswith('/tmp/seed3')):
         continue
     if os.path.exists(f):
         for line in open(f):
@@ -50,7 +50,7 @@ for p in [pid] + also:
 notes = open(os.path.join(out, 'notes.md')).read() if os.path.exists(os.path.join(out, 'notes.md')) else ''
 meta = {
     'property': pid,
-    'source': 'independent sub-agent given only the property text and its own scratch worktree' + (' (round 2: told to avoid the idea of round 1)' if rnd == 2 else ''),
+    'source': 'independent sub-agent given only the property text and its own scratch worktree' + (' (round %d: told to avoid the ideas of the earlier rounds)' % rnd if rnd > 1 else ''),
     'files_changed': sorted(set(re.findall(r'^diff --git a/(\S+)', d, re.M))),
     'needs_to_manifest': 'see notes.md',
     'confirmed_by_me': {'command': 'lib/confirm_seed.sh %s (full suite with change / demo with change / demo without change)' % pid, 'result': confirm},
